@@ -257,7 +257,7 @@ def run_case(run, tap, stream, index, rng):
     elif stream == "invalid":
         good_lon, good_lat = np.array([0.0, 10.0, 350.0]), np.array([-10.0, 0.0, 10.0])
         for _ in range(12):
-            kind = int(rng.integers(0, 7))
+            kind = int(rng.integers(0, 13))
             region = [10.0, 50.0, -20.0, 20.0]
             lon, lat = good_lon.copy(), good_lat.copy()
             if kind == 0:
@@ -270,12 +270,24 @@ def run_case(run, tap, stream, index, rng):
                 region[3] = float(90 + rng.uniform(1e-6, 50))
             elif kind == 4:
                 region[0], region[1] = -180.0, float(180 + rng.uniform(0.5, 180))
+            elif kind == 7:  # west bound beyond 360 with the east bound in range (W > E, less than one turn apart)
+                region[0], region[1] = float(360 + rng.uniform(1e-6, 60)), float(rng.uniform(60, 300))
+            elif kind == 8:  # east bound below -180 with the west bound in range
+                region[0], region[1] = float(rng.uniform(-170, 100)), float(-180 - rng.uniform(1e-6, 60))
+            elif kind == 9:  # south bound above 90 (north in range)
+                region[2] = float(90 + rng.uniform(1e-6, 50))
+            elif kind == 10:  # north bound below -90 (south in range)
+                region[3] = float(-90 - rng.uniform(1e-6, 50))
+            elif kind == 11:  # both longitude bounds out of range on the same side
+                region[0], region[1] = float(360 + rng.uniform(1, 20)), float(360 + rng.uniform(21, 40))
+            elif kind == 12:
+                region[0], region[1] = float(-180 - rng.uniform(21, 40)), float(-180 - rng.uniform(1, 20))
             elif kind == 5:
                 lon[int(rng.integers(0, 3))] = float(rng.choice([-180 - rng.uniform(1e-6, 50), 360 + rng.uniform(1e-6, 50)]))
             else:
                 lat[int(rng.integers(0, 3))] = float(rng.choice([-90 - rng.uniform(1e-6, 50), 90 + rng.uniform(1e-6, 50)]))
             try:
-                if kind < 5 and rng.random() < 0.5:
+                if kind not in (5, 6) and rng.random() < 0.5:
                     vd.longitude_continuity(None, region)
                 else:
                     vd.longitude_continuity([lon, lat], region)
